@@ -1087,7 +1087,7 @@ Section E2E.
     cbn. f_equal. apply IH. now injection Hl.
   Qed.
 
-  Inductive lclass := LText | LInt | LBool.
+  Inductive lclass := LText | LInt | LBool | LFloat | LTime.
 
   Section Drill.
     Variable pm : list (str * kind).
@@ -1109,6 +1109,10 @@ Section E2E.
       | LText => exists s, v = VStr s /\ parse_guess s = VStr s
       | LInt => exists z, v = VInt z
       | LBool => exists b, v = VBool b
+      (* floats and timestamps: the guesses of _val_to_num give the value back (int() fails, float() / pd.Timestamp()
+         invert str()): a hypothesis about the external conversions, per value *)
+      | LFloat => exists f, v = VFloat f /\ parse_guess (show_float f) = VFloat f
+      | LTime => exists t, v = VTime t /\ parse_guess (show_time_str t) = VTime t
       end.
 
     Lemma rv_drill_cases n v : Pv_drill n v ->
@@ -1116,6 +1120,8 @@ Section E2E.
       | LText => exists s, v = VStr s /\ rv_drill v = VStr s
       | LInt => exists z, v = VInt z /\ rv_drill v = VInt z
       | LBool => exists b, v = VBool b /\ rv_drill v = VBool b
+      | LFloat => exists f, v = VFloat f /\ rv_drill v = VFloat f
+      | LTime => exists t, v = VTime t /\ rv_drill v = VTime t
       end.
     Proof.
       intros [_ [_ H]]. unfold rv_drill. destruct (lk n).
@@ -1123,6 +1129,8 @@ Section E2E.
       - destruct H as [z ->]. exists z. split; [reflexivity|]. cbn [Partition.show].
         apply (guess_int F T D parse_float parse_time_pd parse_delta).
       - destruct H as [b ->]. exists b. split; [reflexivity|]. destruct b; reflexivity.
+      - destruct H as [f [-> Hf]]. exists f. split; [reflexivity|exact Hf].
+      - destruct H as [t [-> Ht]]. exists t. split; [reflexivity|exact Ht].
     Qed.
 
     Lemma dnames_nodup : NoDup dnames.
@@ -1172,9 +1180,8 @@ Section E2E.
     Proof.
       apply (e2e false [] names part_name dnames dnames_nodup Pv_drill rv_drill (fun n => lk n = LText)).
       - intros n v _. reflexivity.
-      - intros n v Hv Hs. pose proof (rv_drill_cases n v Hv) as Hc. destruct (lk n); [reflexivity| |].
-        + destruct Hc as [z [_ E]]. rewrite E in Hs. discriminate.
-        + destruct Hc as [b [_ E]]. rewrite E in Hs. discriminate.
+      - intros n v Hv Hs. pose proof (rv_drill_cases n v Hv) as Hc. destruct (lk n); [reflexivity| | | |];
+          destruct Hc as [z [_ E]]; rewrite E in Hs; discriminate.
       - intros n v Ht Hv. pose proof (rv_drill_cases n v Hv) as Hc. rewrite Ht in Hc.
         destruct Hc as [s [-> E]]. rewrite E. reflexivity.
       - intros n v v' Hv Hv' H. pose proof (rv_drill_cases n v Hv) as Hc. pose proof (rv_drill_cases n v' Hv') as Hc'.
@@ -1183,6 +1190,8 @@ Section E2E.
           destruct (str_eqb_spec s s'); [now subst|discriminate].
         + destruct Hc as [z [_ E]], Hc' as [z' [_ E']]. rewrite E, E' in *. cbn in H. apply Z.eqb_eq in H. now subst.
         + destruct Hc as [b [_ E]], Hc' as [b' [_ E']]. rewrite E, E' in *. cbn in H. apply Bool.eqb_prop in H. now subst.
+        + destruct Hc as [f [_ E]], Hc' as [f' [_ E']]. rewrite E, E' in *. cbn in H. destruct (feqb_spec f f'); [now subst|discriminate].
+        + destruct Hc as [t [_ E]], Hc' as [t' [_ E']]. rewrite E, E' in *. cbn in H. destruct (teqb_spec t t'); [now subst|discriminate].
       - intros key Hk. destruct (drill_paths key O Hk) as [_ [H2 [_ [_ [_ [_ [_ H8]]]]]]].
         unfold Partition.path_hits. cbn [snd]. rewrite H2, H8. reflexivity.
       - intros key Hk. destruct (drill_paths key O Hk) as [H1 [H2 [_ [_ [_ [H6 _]]]]]]. split; [exact H1|]. now rewrite H2.
@@ -1197,6 +1206,8 @@ Section E2E.
         + destruct Hc as [s [-> _]], Hc' as [s' [-> _]]. cbn in H. destruct (str_eqb_spec s s'); [now subst|discriminate].
         + destruct Hc as [z [-> _]], Hc' as [z' [-> _]]. cbn in H. apply Z.eqb_eq in H. now subst.
         + destruct Hc as [b0 [-> _]], Hc' as [b' [-> _]]. cbn in H. apply Bool.eqb_prop in H. now subst.
+        + destruct Hc as [f [-> _]], Hc' as [f' [-> _]]. cbn in H. destruct (feqb_spec f f'); [now subst|discriminate].
+        + destruct Hc as [t [-> _]], Hc' as [t' [-> _]]. cbn in H. destruct (teqb_spec t t'); [now subst|discriminate].
       - reflexivity.
     Qed.
 
@@ -1211,6 +1222,8 @@ Section E2E.
       + destruct Hc as [s [-> _]], Hc' as [s' [-> _]]. cbn in H. destruct (str_eqb_spec s s'); [now subst|discriminate].
       + destruct Hc as [z [-> _]], Hc' as [z' [-> _]]. cbn in H. apply Z.eqb_eq in H. now subst.
       + destruct Hc as [b0 [-> _]], Hc' as [b' [-> _]]. cbn in H. apply Bool.eqb_prop in H. now subst.
+      + destruct Hc as [f [-> _]], Hc' as [f' [-> _]]. cbn in H. destruct (feqb_spec f f'); [now subst|discriminate].
+      + destruct Hc as [t [-> _]], Hc' as [t' [-> _]]. cbn in H. destruct (teqb_spec t t'); [now subst|discriminate].
     Qed.
   End Drill.
 End E2E.
